@@ -264,6 +264,13 @@ def module_state():
                 for aname, val in sorted(vars(cls).items()):
                     if isinstance(val, (dict, list, set)) and not aname.startswith("__"):
                         out.append((mname, cname + "." + aname, canon(val)))
+    # process-wide settings that evaluation depends on and that a failed call might leave changed
+    try:
+        import numpy as _np
+        out.append(("env", "numpy.geterr", tuple(sorted(_np.geterr().items()))))
+    except Exception:  # noqa
+        pass
+    out.append(("env", "recursionlimit", sys.getrecursionlimit()))
     return tuple(out)
 
 
